@@ -234,6 +234,11 @@ func alignWindowStart(timestamp time.Time, windowSize time.Duration) time.Time {
 	// Align to window boundary (downward alignment)
 	// This creates consistent window boundaries aligned to epoch
 	alignedNano := (unixNano / windowSizeNano) * windowSizeNano
+	if alignedNano > unixNano {
+		// Go's division truncates toward zero: for a pre-1970 timestamp that is one window too late
+		// (the window would start after the event it is meant to contain)
+		alignedNano -= windowSizeNano
+	}
 
 	// Convert back to time.Time
 	return time.Unix(0, alignedNano).UTC()
